@@ -25,7 +25,7 @@ Open Scope N_scope.
 (* request hook outcome (hooks/requesthook.go result): validated / not validated / validated+paused / error *)
 Inductive hookres := HAccept | HReject | HPause | HErr.
 (* what the update hook does for an update (requestupdatehooks.go): nothing / sends an extension / error / unpause *)
-Inductive updk := UOk | UExt | UErr | UUnpause.
+Inductive updk := UOk | UExt | UErr | UUnpause | UExtErr.   (* UExtErr: sends an extension, then fails *)
 (* block hook outcome for the block the executor is parked at: continue / PauseResponse / TerminateWithError *)
 Inductive gateres := GCont | GPause | GErr.
 
@@ -39,6 +39,9 @@ Inductive lab :=
 | LFinish                   (* the held FinishTask call goes through (the loop handles finishTask) *)
 | LArmStart                 (* the next time the worker pops this request's task, its StartTask round trip is held back *)
 | LStart                    (* the held StartTask call goes through (the loop handles startTask) *)
+| LUpdStall (u : updk)      (* ProcessRequests [update r] for a paused response whose hook sends extension data, while the
+                               peer's memory allowance is exhausted: the loop parks in the reservation of that transaction *)
+| LMemFree                  (* memory is released to the peer by something else: the parked reservation is granted *)
 | LSend (ok : bool)         (* SendMsg of the message in flight returns; false = the peer is gone (queue shut down) *)
 | LHold | LRelease.         (* the only worker gets / finishes a task of another peer *)
 
@@ -80,6 +83,7 @@ Record state := mkState {
   stk : bool;
   gate : option bool;
   fin : option fres;
+  stall : option updk;
   closed : bool;
   infl : option N;
   pend : option N;
@@ -90,28 +94,29 @@ Record state := mkState {
   n_net : N;
   n_fail : N }.
 
-Definition set_seen (v : bool) (s : state) : state := mkState v (ent s) (sig_pause s) (sig_upd s) (sig_err s) (tq s) (held s) (arm s) (stk s) (gate s) (fin s) (closed s) (infl s) (pend s) (nprot s) (unprot s) (evs s) (n_done s) (n_net s) (n_fail s).
-Definition set_ent (v : option entry) (s : state) : state := mkState (seen s) v (sig_pause s) (sig_upd s) (sig_err s) (tq s) (held s) (arm s) (stk s) (gate s) (fin s) (closed s) (infl s) (pend s) (nprot s) (unprot s) (evs s) (n_done s) (n_net s) (n_fail s).
-Definition set_sig_pause (v : bool) (s : state) : state := mkState (seen s) (ent s) v (sig_upd s) (sig_err s) (tq s) (held s) (arm s) (stk s) (gate s) (fin s) (closed s) (infl s) (pend s) (nprot s) (unprot s) (evs s) (n_done s) (n_net s) (n_fail s).
-Definition set_sig_upd (v : bool) (s : state) : state := mkState (seen s) (ent s) (sig_pause s) v (sig_err s) (tq s) (held s) (arm s) (stk s) (gate s) (fin s) (closed s) (infl s) (pend s) (nprot s) (unprot s) (evs s) (n_done s) (n_net s) (n_fail s).
-Definition set_sig_err (v : option errk) (s : state) : state := mkState (seen s) (ent s) (sig_pause s) (sig_upd s) v (tq s) (held s) (arm s) (stk s) (gate s) (fin s) (closed s) (infl s) (pend s) (nprot s) (unprot s) (evs s) (n_done s) (n_net s) (n_fail s).
-Definition set_tq (v : N) (s : state) : state := mkState (seen s) (ent s) (sig_pause s) (sig_upd s) (sig_err s) v (held s) (arm s) (stk s) (gate s) (fin s) (closed s) (infl s) (pend s) (nprot s) (unprot s) (evs s) (n_done s) (n_net s) (n_fail s).
-Definition set_held (v : bool) (s : state) : state := mkState (seen s) (ent s) (sig_pause s) (sig_upd s) (sig_err s) (tq s) v (arm s) (stk s) (gate s) (fin s) (closed s) (infl s) (pend s) (nprot s) (unprot s) (evs s) (n_done s) (n_net s) (n_fail s).
-Definition set_arm (v : bool) (s : state) : state := mkState (seen s) (ent s) (sig_pause s) (sig_upd s) (sig_err s) (tq s) (held s) v (stk s) (gate s) (fin s) (closed s) (infl s) (pend s) (nprot s) (unprot s) (evs s) (n_done s) (n_net s) (n_fail s).
-Definition set_stk (v : bool) (s : state) : state := mkState (seen s) (ent s) (sig_pause s) (sig_upd s) (sig_err s) (tq s) (held s) (arm s) v (gate s) (fin s) (closed s) (infl s) (pend s) (nprot s) (unprot s) (evs s) (n_done s) (n_net s) (n_fail s).
-Definition set_gate (v : option bool) (s : state) : state := mkState (seen s) (ent s) (sig_pause s) (sig_upd s) (sig_err s) (tq s) (held s) (arm s) (stk s) v (fin s) (closed s) (infl s) (pend s) (nprot s) (unprot s) (evs s) (n_done s) (n_net s) (n_fail s).
-Definition set_fin (v : option fres) (s : state) : state := mkState (seen s) (ent s) (sig_pause s) (sig_upd s) (sig_err s) (tq s) (held s) (arm s) (stk s) (gate s) v (closed s) (infl s) (pend s) (nprot s) (unprot s) (evs s) (n_done s) (n_net s) (n_fail s).
-Definition set_closed (v : bool) (s : state) : state := mkState (seen s) (ent s) (sig_pause s) (sig_upd s) (sig_err s) (tq s) (held s) (arm s) (stk s) (gate s) (fin s) v (infl s) (pend s) (nprot s) (unprot s) (evs s) (n_done s) (n_net s) (n_fail s).
-Definition set_infl (v : option N) (s : state) : state := mkState (seen s) (ent s) (sig_pause s) (sig_upd s) (sig_err s) (tq s) (held s) (arm s) (stk s) (gate s) (fin s) (closed s) v (pend s) (nprot s) (unprot s) (evs s) (n_done s) (n_net s) (n_fail s).
-Definition set_pend (v : option N) (s : state) : state := mkState (seen s) (ent s) (sig_pause s) (sig_upd s) (sig_err s) (tq s) (held s) (arm s) (stk s) (gate s) (fin s) (closed s) (infl s) v (nprot s) (unprot s) (evs s) (n_done s) (n_net s) (n_fail s).
-Definition set_nprot (v : N) (s : state) : state := mkState (seen s) (ent s) (sig_pause s) (sig_upd s) (sig_err s) (tq s) (held s) (arm s) (stk s) (gate s) (fin s) (closed s) (infl s) (pend s) v (unprot s) (evs s) (n_done s) (n_net s) (n_fail s).
-Definition set_unprot (v : N) (s : state) : state := mkState (seen s) (ent s) (sig_pause s) (sig_upd s) (sig_err s) (tq s) (held s) (arm s) (stk s) (gate s) (fin s) (closed s) (infl s) (pend s) (nprot s) v (evs s) (n_done s) (n_net s) (n_fail s).
-Definition set_evs (v : list ev) (s : state) : state := mkState (seen s) (ent s) (sig_pause s) (sig_upd s) (sig_err s) (tq s) (held s) (arm s) (stk s) (gate s) (fin s) (closed s) (infl s) (pend s) (nprot s) (unprot s) v (n_done s) (n_net s) (n_fail s).
-Definition set_n_done (v : N) (s : state) : state := mkState (seen s) (ent s) (sig_pause s) (sig_upd s) (sig_err s) (tq s) (held s) (arm s) (stk s) (gate s) (fin s) (closed s) (infl s) (pend s) (nprot s) (unprot s) (evs s) v (n_net s) (n_fail s).
-Definition set_n_net (v : N) (s : state) : state := mkState (seen s) (ent s) (sig_pause s) (sig_upd s) (sig_err s) (tq s) (held s) (arm s) (stk s) (gate s) (fin s) (closed s) (infl s) (pend s) (nprot s) (unprot s) (evs s) (n_done s) v (n_fail s).
-Definition set_n_fail (v : N) (s : state) : state := mkState (seen s) (ent s) (sig_pause s) (sig_upd s) (sig_err s) (tq s) (held s) (arm s) (stk s) (gate s) (fin s) (closed s) (infl s) (pend s) (nprot s) (unprot s) (evs s) (n_done s) (n_net s) v.
+Definition set_seen (v : bool) (s : state) : state := mkState v (ent s) (sig_pause s) (sig_upd s) (sig_err s) (tq s) (held s) (arm s) (stk s) (gate s) (fin s) (stall s) (closed s) (infl s) (pend s) (nprot s) (unprot s) (evs s) (n_done s) (n_net s) (n_fail s).
+Definition set_ent (v : option entry) (s : state) : state := mkState (seen s) v (sig_pause s) (sig_upd s) (sig_err s) (tq s) (held s) (arm s) (stk s) (gate s) (fin s) (stall s) (closed s) (infl s) (pend s) (nprot s) (unprot s) (evs s) (n_done s) (n_net s) (n_fail s).
+Definition set_sig_pause (v : bool) (s : state) : state := mkState (seen s) (ent s) v (sig_upd s) (sig_err s) (tq s) (held s) (arm s) (stk s) (gate s) (fin s) (stall s) (closed s) (infl s) (pend s) (nprot s) (unprot s) (evs s) (n_done s) (n_net s) (n_fail s).
+Definition set_sig_upd (v : bool) (s : state) : state := mkState (seen s) (ent s) (sig_pause s) v (sig_err s) (tq s) (held s) (arm s) (stk s) (gate s) (fin s) (stall s) (closed s) (infl s) (pend s) (nprot s) (unprot s) (evs s) (n_done s) (n_net s) (n_fail s).
+Definition set_sig_err (v : option errk) (s : state) : state := mkState (seen s) (ent s) (sig_pause s) (sig_upd s) v (tq s) (held s) (arm s) (stk s) (gate s) (fin s) (stall s) (closed s) (infl s) (pend s) (nprot s) (unprot s) (evs s) (n_done s) (n_net s) (n_fail s).
+Definition set_tq (v : N) (s : state) : state := mkState (seen s) (ent s) (sig_pause s) (sig_upd s) (sig_err s) v (held s) (arm s) (stk s) (gate s) (fin s) (stall s) (closed s) (infl s) (pend s) (nprot s) (unprot s) (evs s) (n_done s) (n_net s) (n_fail s).
+Definition set_held (v : bool) (s : state) : state := mkState (seen s) (ent s) (sig_pause s) (sig_upd s) (sig_err s) (tq s) v (arm s) (stk s) (gate s) (fin s) (stall s) (closed s) (infl s) (pend s) (nprot s) (unprot s) (evs s) (n_done s) (n_net s) (n_fail s).
+Definition set_arm (v : bool) (s : state) : state := mkState (seen s) (ent s) (sig_pause s) (sig_upd s) (sig_err s) (tq s) (held s) v (stk s) (gate s) (fin s) (stall s) (closed s) (infl s) (pend s) (nprot s) (unprot s) (evs s) (n_done s) (n_net s) (n_fail s).
+Definition set_stk (v : bool) (s : state) : state := mkState (seen s) (ent s) (sig_pause s) (sig_upd s) (sig_err s) (tq s) (held s) (arm s) v (gate s) (fin s) (stall s) (closed s) (infl s) (pend s) (nprot s) (unprot s) (evs s) (n_done s) (n_net s) (n_fail s).
+Definition set_gate (v : option bool) (s : state) : state := mkState (seen s) (ent s) (sig_pause s) (sig_upd s) (sig_err s) (tq s) (held s) (arm s) (stk s) v (fin s) (stall s) (closed s) (infl s) (pend s) (nprot s) (unprot s) (evs s) (n_done s) (n_net s) (n_fail s).
+Definition set_fin (v : option fres) (s : state) : state := mkState (seen s) (ent s) (sig_pause s) (sig_upd s) (sig_err s) (tq s) (held s) (arm s) (stk s) (gate s) v (stall s) (closed s) (infl s) (pend s) (nprot s) (unprot s) (evs s) (n_done s) (n_net s) (n_fail s).
+Definition set_stall (v : option updk) (s : state) : state := mkState (seen s) (ent s) (sig_pause s) (sig_upd s) (sig_err s) (tq s) (held s) (arm s) (stk s) (gate s) (fin s) v (closed s) (infl s) (pend s) (nprot s) (unprot s) (evs s) (n_done s) (n_net s) (n_fail s).
+Definition set_closed (v : bool) (s : state) : state := mkState (seen s) (ent s) (sig_pause s) (sig_upd s) (sig_err s) (tq s) (held s) (arm s) (stk s) (gate s) (fin s) (stall s) v (infl s) (pend s) (nprot s) (unprot s) (evs s) (n_done s) (n_net s) (n_fail s).
+Definition set_infl (v : option N) (s : state) : state := mkState (seen s) (ent s) (sig_pause s) (sig_upd s) (sig_err s) (tq s) (held s) (arm s) (stk s) (gate s) (fin s) (stall s) (closed s) v (pend s) (nprot s) (unprot s) (evs s) (n_done s) (n_net s) (n_fail s).
+Definition set_pend (v : option N) (s : state) : state := mkState (seen s) (ent s) (sig_pause s) (sig_upd s) (sig_err s) (tq s) (held s) (arm s) (stk s) (gate s) (fin s) (stall s) (closed s) (infl s) v (nprot s) (unprot s) (evs s) (n_done s) (n_net s) (n_fail s).
+Definition set_nprot (v : N) (s : state) : state := mkState (seen s) (ent s) (sig_pause s) (sig_upd s) (sig_err s) (tq s) (held s) (arm s) (stk s) (gate s) (fin s) (stall s) (closed s) (infl s) (pend s) v (unprot s) (evs s) (n_done s) (n_net s) (n_fail s).
+Definition set_unprot (v : N) (s : state) : state := mkState (seen s) (ent s) (sig_pause s) (sig_upd s) (sig_err s) (tq s) (held s) (arm s) (stk s) (gate s) (fin s) (stall s) (closed s) (infl s) (pend s) (nprot s) v (evs s) (n_done s) (n_net s) (n_fail s).
+Definition set_evs (v : list ev) (s : state) : state := mkState (seen s) (ent s) (sig_pause s) (sig_upd s) (sig_err s) (tq s) (held s) (arm s) (stk s) (gate s) (fin s) (stall s) (closed s) (infl s) (pend s) (nprot s) (unprot s) v (n_done s) (n_net s) (n_fail s).
+Definition set_n_done (v : N) (s : state) : state := mkState (seen s) (ent s) (sig_pause s) (sig_upd s) (sig_err s) (tq s) (held s) (arm s) (stk s) (gate s) (fin s) (stall s) (closed s) (infl s) (pend s) (nprot s) (unprot s) (evs s) v (n_net s) (n_fail s).
+Definition set_n_net (v : N) (s : state) : state := mkState (seen s) (ent s) (sig_pause s) (sig_upd s) (sig_err s) (tq s) (held s) (arm s) (stk s) (gate s) (fin s) (stall s) (closed s) (infl s) (pend s) (nprot s) (unprot s) (evs s) (n_done s) v (n_fail s).
+Definition set_n_fail (v : N) (s : state) : state := mkState (seen s) (ent s) (sig_pause s) (sig_upd s) (sig_err s) (tq s) (held s) (arm s) (stk s) (gate s) (fin s) (stall s) (closed s) (infl s) (pend s) (nprot s) (unprot s) (evs s) (n_done s) (n_net s) v.
 Definition init : state :=
-  mkState false None false false None 0 false false false None None false None None 0 0 [] 0 0 0.
+  mkState false None false false None 0 false false false None None None false None None 0 0 [] 0 0 0.
 
 Definition is_term (c : N) : bool := ((20 <=? c) && (c <=? 21)) || ((30 <=? c) && (c <=? 35)).   (* responsecode.go IsTerminal *)
 
@@ -213,6 +218,7 @@ Definition add_upd (u : updk) (e : entry) : entry :=
   match u with
   | UErr => mkEntry (e_st e) true (e_uext e) (e_started e) (e_neterr e)
   | UExt => mkEntry (e_st e) false true (e_started e) (e_neterr e)
+  | UExtErr => mkEntry (e_st e) true true (e_started e) (e_neterr e)
   | _ => e
   end.
 
@@ -307,10 +313,31 @@ Definition unpause (c : cfg) (more : bool) (ord : N) (s : state) : state * N :=
   end.
 
 (* `more`: does the traverser have another block when the executor next asks (the only use of pos) *)
+(* server.go processUpdate for a paused response: the update hook runs in the loop; its extension data and,
+   on error, the final status go out in one transaction; then CompletingSend / unpause *)
+Definition upd_paused (c : cfg) (more : bool) (ord : N) (u : updk) (s : state) : state :=
+  let s1 := transact c ((match u with UExt | UExtErr => [OExt] | _ => [] end) ++
+                        (match u with UErr | UExtErr => [OStatus 32] | _ => [] end)) s in
+  match u with
+  | UErr | UExtErr => set_est Completing s1
+  | UUnpause => fst (unpause c more ord s1)
+  | _ => s1
+  end.
+
+Definition st_code_is_paused (s : state) : bool :=
+  match ent s with Some e => est_eqb (e_st e) Paused | None => false end.
+
 Definition step_ret_m (c : cfg) (more : bool) (s0 : state) (l : label) : state * N :=
   let '(lb, ord0) := l in
   let ord := N.min ord0 5 in
   let s := set_evs [] s0 in
+  (* while the loop is parked in a reservation nothing else is handled by it (calls into it queue up or block:
+     not modelled); the labels that can resolve it are the failing send and the memory release *)
+  let blocked := match stall s0, lb with
+                 | None, _ | Some _, LSend false | Some _, LMemFree => false
+                 | Some _, _ => true
+                 end in
+  if blocked then (s, 0) else
   match lb with
   | LNew h =>                                                       (* server.go newRequest *)
     if seen s then (s, 0) else
@@ -328,13 +355,7 @@ Definition step_ret_m (c : cfg) (more : bool) (s0 : state) (l : label) : state *
     | Some e =>
       match e_st e with
       | Completing => (s, 0)
-      | Paused =>
-        let s1 := transact c ((match u with UExt => [OExt] | _ => [] end) ++ (match u with UErr => [OStatus 32] | _ => [] end)) s in
-        match u with
-        | UErr => (set_est Completing s1, 0)
-        | UUnpause => (fst (unpause c more ord s1), 0)
-        | _ => (s1, 0)
-        end
+      | Paused => (upd_paused c more ord u s, 0)
       | _ => (set_sig_upd true (set_ent (Some (add_upd u e)) s), 0)
       end
     end
@@ -381,6 +402,12 @@ Definition step_ret_m (c : cfg) (more : bool) (s0 : state) (l : label) : state *
         (* publishError: response stream closed, queued builders scrubbed; subscriber.OnNext Error:
            CloseWithNetworkError, TerminateRequest when the code is terminal, network error listeners *)
         let s1 := set_n_fail (n_fail s + 1) (set_closed true (set_pend None (set_infl None s))) in
+        (* the scrub returned memory: a reservation the loop is parked in is granted, its build finds the
+           stream closed, processUpdate completes; only then does the loop get to the notification's calls *)
+        let s1 := match stall s1 with
+                  | Some u => upd_paused c more ord u (set_stall None s1)
+                  | None => s1
+                  end in
         let s2 := fst (abort c ENet s1) in
         let s3 := if is_term m then terminate s2 else s2 in
         (emit EvNetErr s3, 0)
@@ -389,6 +416,18 @@ Definition step_ret_m (c : cfg) (more : bool) (s0 : state) (l : label) : state *
     match fin s with
     | None => (s, 0)
     | Some r => (finish_task c r (set_fin None s), 0)
+    end
+  | LUpdStall u =>
+    (* only where it can happen and be resolved: a paused response, a hook result that needs memory, and a
+       message in flight whose outcome returns memory *)
+    match stall s, infl s, u with
+    | None, Some _, (UExt | UExtErr) => if st_code_is_paused s then (set_stall (Some u) s, 0) else (s, 0)
+    | _, _, _ => (s, 0)
+    end
+  | LMemFree =>
+    match stall s with
+    | Some u => (upd_paused c more ord u (set_stall None s), 0)
+    | None => (s, 0)
     end
   | LArmStart => if stk s || (tq s =? 2) then (s, 0) else (set_arm true s, 0)
   | LStart => if stk s then (start_task c more ord (set_stk false s), 0) else (s, 0)
@@ -417,7 +456,7 @@ Record obs := Build_obs {
   ob_st : N;            (* PeerState: 0 not listed, 1 Queued, 2 Running, 3 Paused, 4 CompletingSend *)
   ob_tq : N;            (* PeerState task queue: 0 none, 1 pending, 2 active *)
   ob_prot : N; ob_unprot : N;      (* ConnManager.Protect / Unprotect calls so far *)
-  ob_exec : N;          (* 0 = executor idle, k+1 = parked in the hook of block k, 50 = parked before FinishTask, 51 = before StartTask *)
+  ob_exec : N;          (* 0 = executor idle, k+1 = parked in the hook of block k, 50 = parked before FinishTask, 51 = before StartTask; 52 = the loop is parked in a reservation *)
   ob_infl : N;          (* status of this request in the message inside SendMsg; 0 = nothing in flight *)
   ob_compl : N;         (* completed-listener notification during the step: 0 none, its status, 1 = more than one *)
   ob_canc : N; ob_net : N; ob_proc : N;   (* cancelled / network-error / request-processing notifications during the step *)
@@ -429,7 +468,7 @@ Definition count_ev (f : ev -> bool) (s : state) : N := N.of_nat (length (filter
 Definition observe (fs : fstate) (ret : N) : obs :=
   let '(s, p) := fs in
   Build_obs (st_code s) (tq s) (nprot s) (unprot s)
-    (match gate s with Some _ => p + 1 | None => match fin s with Some _ => 50 | None => if stk s then 51 else 0 end end) (match infl s with Some m => m | None => 0 end)
+    (match gate s with Some _ => p + 1 | None => match fin s with Some _ => 50 | None => if stk s then 51 else match stall s with Some _ => 52 | None => 0 end end end) (match infl s with Some m => m | None => 0 end)
     (match flat_map (fun e => match e with EvCompleted c => [c] | _ => [] end) (evs s) with [] => 0 | [c] => c | _ => 1 end)
     (count_ev (fun e => match e with EvCancelled => true | _ => false end) s)
     (count_ev (fun e => match e with EvNetErr => true | _ => false end) s)
@@ -463,7 +502,7 @@ Definition orders (s : state) : list N := if ambiguous s then [0; 1; 2; 3; 4; 5]
 
 (* boolean equality of states, to keep the candidate set of the acceptor duplicate-free *)
 Definition updk_eqb (a b : updk) : bool :=
-  match a, b with UOk, UOk | UExt, UExt | UErr, UErr | UUnpause, UUnpause => true | _, _ => false end.
+  match a, b with UOk, UOk | UExt, UExt | UErr, UErr | UUnpause, UUnpause | UExtErr, UExtErr => true | _, _ => false end.
 Definition entry_eqb (a b : entry) : bool :=
   est_eqb (e_st a) (e_st b) && Bool.eqb (e_uerr a) (e_uerr b) && Bool.eqb (e_uext a) (e_uext b) && Bool.eqb (e_started a) (e_started b) && Bool.eqb (e_neterr a) (e_neterr b).
 Definition ev_eqb (a b : ev) : bool :=
@@ -481,7 +520,7 @@ Definition fres_eqb (a b : fres) : bool :=
 Definition state_eqb (a b : state) : bool :=
   Bool.eqb (seen a) (seen b) && option_eqb entry_eqb (ent a) (ent b) && Bool.eqb (sig_pause a) (sig_pause b) &&
   Bool.eqb (sig_upd a) (sig_upd b) && option_eqb errk_eqb (sig_err a) (sig_err b) && (tq a =? tq b) &&
-  Bool.eqb (held a) (held b) && Bool.eqb (arm a) (arm b) && Bool.eqb (stk a) (stk b) && option_eqb Bool.eqb (gate a) (gate b) && option_eqb fres_eqb (fin a) (fin b) && Bool.eqb (closed a) (closed b) &&
+  Bool.eqb (held a) (held b) && Bool.eqb (arm a) (arm b) && Bool.eqb (stk a) (stk b) && option_eqb Bool.eqb (gate a) (gate b) && option_eqb fres_eqb (fin a) (fin b) && option_eqb updk_eqb (stall a) (stall b) && Bool.eqb (closed a) (closed b) &&
   option_eqb N.eqb (infl a) (infl b) && option_eqb N.eqb (pend a) (pend b) && (nprot a =? nprot b) && (unprot a =? unprot b) &&
   list_eqb ev_eqb (evs a) (evs b) && (n_done a =? n_done b) && (n_net a =? n_net b) && (n_fail a =? n_fail b).
 Definition fstate_eqb (a b : fstate) : bool := state_eqb (fst a) (fst b) && (snd a =? snd b).
@@ -534,8 +573,10 @@ Definition mon_step (m : mstate) (lo : lab * obs) : option mstate :=
   let task_ok := negb (seen' && (ob_st o =? 0) && (ob_exec o =? 0)) || (ob_tq o =? 0) in
   (* a block is only ever processed for a response that is Running *)
   let exec_ok := negb ((1 <=? ob_exec o) && (ob_exec o <? 50)) || (ob_st o =? 2) in
+  (* after a network-error outcome: no completed notification and nothing more of the request on the wire *)
+  let after_net_ok := (m_net m =? 0) || ((ob_compl o =? 0) && (ob_infl o =? 0)) in
   let rest_ok := negb (seen' && quiescent_obs o) || ((ob_st o =? 0) && (1 <=? m_compl m' + m_canc m' + m_net m')) in
-  if compl_ok && net_ok && prot_ok && gone_ok && once_ok && task_ok && exec_ok && rest_ok then Some m' else None.
+  if compl_ok && net_ok && prot_ok && gone_ok && once_ok && task_ok && exec_ok && after_net_ok && rest_ok then Some m' else None.
 
 Fixpoint mon_run (m : mstate) (tr : list (lab * obs)) : bool :=
   match tr with
